@@ -526,11 +526,19 @@ def loop_coverage(ctx):
     ctx.floor(6)
 
 
+def from_text_units(ctx):
+    """(from_text, its nested builder function) -- found by role, not by name"""
+    fu = ctx.unit('core.Path.from_text')
+    kids = [k for k in fu.children if not k.is_lambda]
+    ctx.require(len(kids) == 1, 'Path.from_text: expected exactly one nested builder function, found %d' % len(kids))
+    ctx.units_touched.add(kids[0].qualname)
+    return fu, kids[0]
+
+
 @rule('C01.7')
 def text_paths(ctx):
     p = ctx.program
-    cu = ctx.unit('core.Path.from_text.create')
-    fu = ctx.unit('core.Path.from_text')
+    fu, cu = from_text_units(ctx)
     text_param = fu.params[1] if len(fu.params) > 1 else None
     ctx.require(text_param, 'Path.from_text has no text parameter')
     cfg = ctx.cfg(cu)
@@ -573,7 +581,7 @@ def text_paths(ctx):
     # from_text returns what create() built (cached or not)
     for r in [n for n in fu.own_nodes() if isinstance(n, ast.Return)]:
         v = r.value
-        ok = (isinstance(v, ast.Call) and is_name(v.func, 'create')) or \
+        ok = (isinstance(v, ast.Call) and is_name(v.func, cu.name)) or \
              (isinstance(v, ast.Subscript) and is_name(v.slice, text_param))
         ctx.ob(ok, fu, 'from_text returns create() or the cache entry for this text: %s' % norm(r), node=r)
     # AUTO: string specs go through Path.from_text(spec) into the interpreter
